@@ -436,11 +436,22 @@ func registrationBetweenSessions(r *vh.Run, kind kit.Kind) {
 // Each answer must equal a registration state that existed between the sending of its request and the
 // arrival of its answer: at least `done` registrations had completed before the request was sent, at most
 // `started` had begun when the answer arrived.
+//
+// Every second round the server starts with two tools and each registration comes with the removal of one of
+// them (the tool leaves first, the prompt / resource arrives afterwards), so that the number of registered
+// items is the same before and after; a removal changes nothing about the expected capability set.
 func concurrentRegistration(r *vh.Run, kind kit.Kind, rounds, workers, perWorker int) {
 	ctx, cancel := context.WithTimeout(context.Background(), 5*time.Minute)
 	defer cancel()
 	for round := 0; round < rounds; round++ {
 		in := kit.Start(kind, kit.Opts{})
+		withRemoval := round%2 == 1
+		variant := "additions"
+		if withRemoval {
+			variant = "replacements"
+			registerTool(in, "conc-t1")
+			registerTool(in, "conc-t2")
+		}
 		var started, done, answered atomic.Int64
 		type rec struct {
 			lo, hi int64
@@ -475,10 +486,20 @@ func concurrentRegistration(r *vh.Run, kind kit.Kind, rounds, workers, perWorker
 			}
 		}
 		waitFor(total / 4)
+		if withRemoval {
+			if err := in.UnregisterTools("conc-t1"); err != nil {
+				r.Inconclusive(fmt.Sprintf("server %s: concurrent scenario: UnregisterTools(conc-t1): %v", kind, err))
+			}
+		}
 		started.Add(1)
 		registerPrompt(in, "conc-p")
 		done.Add(1)
 		waitFor(total / 2)
+		if withRemoval {
+			if err := in.UnregisterTools("conc-t2", "conc-unknown"); err != nil {
+				r.Inconclusive(fmt.Sprintf("server %s: concurrent scenario: UnregisterTools(conc-t2): %v", kind, err))
+			}
+		}
 		started.Add(1)
 		registerResource(in, "res://conc")
 		done.Add(1)
@@ -489,10 +510,11 @@ func concurrentRegistration(r *vh.Run, kind kit.Kind, rounds, workers, perWorker
 		for _, x := range recs {
 			r.Eval(1)
 			r.Count("concurrent_handshakes", 1)
+			r.Count("concurrent_handshakes_"+variant, 1)
 			if x.lo < x.hi {
 				r.Count("concurrent_handshakes_overlapping_a_registration", 1)
 			}
-			wit := map[string]interface{}{"kind": kind, "registrations_completed_before_send": x.lo, "registrations_started_at_answer": x.hi, "answer": x.a}
+			wit := map[string]interface{}{"kind": kind, "variant": variant, "registrations_completed_before_send": x.lo, "registrations_started_at_answer": x.hi, "answer": x.a}
 			if !x.a.Got || x.a.IsError {
 				r.Violation(fmt.Sprintf("C16|server|%s|caps=concurrent-registration|no-result", kind), fmt.Sprintf("%s: handshake during registration failed", kind), wit)
 				continue
@@ -512,7 +534,7 @@ func concurrentRegistration(r *vh.Run, kind kit.Kind, rounds, workers, perWorker
 			seen[fmt.Sprintf("p%v-r%v", x.a.Caps["prompts"], x.a.Caps["resources"])] = true
 		}
 		for k := range seen {
-			r.Distinct(fmt.Sprintf("server|%s|concurrent|%s", kind, k))
+			r.Distinct(fmt.Sprintf("server|%s|concurrent-%s|%s", kind, variant, k))
 		}
 	}
 }
@@ -529,8 +551,9 @@ func serverPart(r *vh.Run) {
 			defer func() { r.Max("wall_ms_server_"+string(kind), time.Since(t0).Milliseconds()) }()
 			versionAndCapsMatrix(r, kind, nRandom)
 			registrationBetweenSessions(r, kind)
+			registrationHistories(r, kind, r.Pick(120, 600))
 			if kind.IsStreamable() {
-				concurrentRegistration(r, kind, r.Pick(3, 20), 8, 20)
+				concurrentRegistration(r, kind, r.Pick(4, 20), 8, 20)
 			}
 		}(kind)
 	}
